@@ -97,6 +97,67 @@ def regex_uses(lit, subj):
     ]
 
 
+EMPTY_PATS = ["a*", "(?:)", "\\b", "^", "$", "(?=a)", "x*?", "\\d*", "(a)|", "a|", "|a", "(?!x)", "\\B", "a{0}", "(a*)*", "(?:a|)*", "[^]*?", "(?<=a)", "^|$", "a*?b*?"]
+RX_FLAGS = ["", "g", "y", "gy", "gi", "gm", "giy", "gmy", "gs", "gu", "yi"]
+RX_SUBJECTS = ["", "aab", "abc abc", "\\n", "aaa", "b", "a\\nb", "\u00e9a"]
+
+
+def finite_driver_programs(ctx):
+    out = []
+    uses = [("match", "S.match(R);"), ("replace", "S.replace(R, '-');"), ("replace-fn", "S.replace(R, function (m) { return '[' + m + ']'; });"),
+            ("replace-tpl", "S.replace(R, '$&$&');"), ("replaceAll", "S.replaceAll(R, '-');"), ("split", "S.split(R);"), ("split-limit", "S.split(R, 2);"),
+            ("search", "S.search(R);"), ("matchAll", "var it = S.matchAll(R), n = 0; for (var m of it) { if (++n > 50) break; }"),
+            ("test-bounded", "var n = 0; while (R.test(S) && n < 40) { n++; }"),
+            ("exec-idiom", "var m, n = 0; while ((m = R.exec(S)) !== null && n < 40) { n++; if (m.index === R.lastIndex) { R.lastIndex++; } }"),
+            ("exec-lastIndex-past-end", "R.lastIndex = 99; R.exec(S); R.test(S);"), ("symbol-free-replace-call", "String.prototype.replace.call(S, R, '-');")]
+    k = 0
+    for pat in EMPTY_PATS:
+        for fl in RX_FLAGS:
+            for subj in RX_SUBJECTS:
+                for un, u in uses:
+                    k += 1
+                    if ctx.quick and (k % 7) and not (fl in ("gy", "giy", "gmy") and subj in ("aab", "aaa")):
+                        continue
+                    src = "var S = '%s'; var R = new RegExp(%s, '%s'); %s" % (subj, places.q(pat), fl, u)
+                    out.append(("rx-%s|%s|%s|%s" % (un, pat, fl, subj), src))
+    for i, e in enumerate(EDGE_DRIVERS):
+        out.append(("edge|%d" % i, "var S = 'abcabc', A = [3, 1, 2, 1], O = {a: 1, b: 2}; " + e))
+    return out
+
+
+EDGE_DRIVERS = [
+    "S.replaceAll('', '-');", "S.split('');", "S.split('', 2);", "S.indexOf('', 10);", "S.lastIndexOf('');", "S.lastIndexOf('', -5);", "''.padStart(5, '');", "S.padEnd(10, '');",
+    "S.padStart(10, 'xy');", "S.repeat(0);", "''.repeat(1000);", "S.replace('', '$&$&');", "S.replace('', function () { return ''; });", "S.includes('', 100);", "S.startsWith('', 100);",
+    "S.endsWith('', -1);", "S.substring(NaN, -1);", "S.substr(-100, Infinity);", "S.slice(Infinity, -Infinity);", "S.at(-100);", "S.charAt(1e9);", "S.charCodeAt(-1);", "S.codePointAt(99);",
+    "S.concat();", "S.trim();", "' \\n\\t '.trim();", "S.split(undefined);", "S.split('abc', 0);", "S.split('abcabc');", "''.split('');", "''.split('a');", "S.normalize && S.normalize();",
+    "S.localeCompare('');", "S.toUpperCase().toLowerCase();", "S.match('');", "S.search('');", "S.indexOf('c', -Infinity);", "S.lastIndexOf('a', NaN);",
+    "A.fill(0, -10, 10);", "A.fill(0, 3, 1);", "A.copyWithin(0, 1);", "A.copyWithin(-1, -3, -1);", "A.copyWithin(1, 0, 100);", "A.splice(-1, 0);", "A.splice(0);", "A.splice(1, -1, 9);",
+    "A.splice(100, 100, 1, 2);", "A.slice(5, 1);", "A.slice(-100, 100);", "A.lastIndexOf(1, -10);", "A.lastIndexOf(1, 100);", "A.indexOf(1, -Infinity);", "A.includes(NaN, NaN);",
+    "new Array(3).join();", "new Array(0).join('x');", "Array.from({length: 3});", "Array.from({length: -1});", "Array.from({length: NaN});", "Array.from('');", "[[1, [2, [3]]]].flat(Infinity);",
+    "[].flat(1e9);", "A.flatMap(function (x) { return []; });", "A.reverse();", "[].reverse();", "A.sort();", "[].sort();", "[1].sort(function () { return NaN; });", "A.concat([], [[]]);",
+    "A.join(A);", "A.length = 0; A.pop(); A.shift();", "A.length = 2; A.push();", "A.unshift();", "A.at(-9);", "A.find(function () { return false; });", "A.findLast && A.findLast(function () { return false; });",
+    "A.reduce(function (x, y) { return x + y; });", "A.reduceRight(function (x, y) { return x; }, 0);", "[].every(function () { return false; });", "[, , 1].forEach(function () { });",
+    "A.keys && A.keys();", "A.entries && A.entries();", "Array(5).fill().map(function (x, i) { return i; });", "A.toString();", "Array.of();", "Array.isArray(A);", "A.with && A.with(0, 1);",
+    "(1e21).toString(2);", "(0.1).toString(3);", "(1e-7).toFixed(20);", "(255).toString(36);", "(-255.5).toString(16);", "(5e-324).toString(2);", "(1.7976931348623157e308).toString(36);",
+    "(0).toFixed(0);", "(1e21).toFixed(2);", "(123.456).toExponential(0);", "(0).toExponential(20);", "(5e-324).toPrecision(21);", "(1e300).toPrecision(100);", "(0.000001).toString();",
+    "(1e-7).toString();", "NaN.toString(2);", "Infinity.toFixed(2);", "(-0).toString();", "(123).toString(10);", "(2 ** 53).toString(2);", "(1 / 3).toString(2);", "(1 / 3).toFixed(20);",
+    "parseInt('1'.repeat(400));", "parseInt('', 36);", "parseInt('z'.repeat(50), 36);", "parseInt('0x');", "parseInt('  -');", "parseFloat('1e');", "parseFloat('.');", "parseFloat('1'.repeat(400));",
+    "parseFloat('1e400');", "parseFloat('-.e1');", "Number('');", "Number(' 0x ');", "Number('1e1000');", "Number('0b');", "Number('.');", "Number('1_0');", "Math.round(1e300);", "Math.round(-0.5);",
+    "Math.max();", "Math.min();", "Math.hypot();", "Math.pow(0, -Infinity);", "Math.trunc(-0.9);", "Math.fround && Math.fround(1e400);", "Math.clz32 && Math.clz32(0);", "Math.imul && Math.imul(-1, 1e20);",
+    "JSON.stringify(O, null, 10);", "JSON.stringify(O, null, '');", "JSON.stringify(O, null, 'xxxxxxxxxxxxxxxxxxxx');", "JSON.stringify([]);", "JSON.stringify([[]], null, 2);", "JSON.stringify({}, null, 2);",
+    "JSON.stringify('');", "JSON.stringify(undefined);", "JSON.parse('[]');", "JSON.parse(' {} ');", "JSON.parse('\\n[\\n]\\n');", "JSON.parse('\"\"');", "JSON.parse('-0');", "JSON.parse('1e5');",
+    "JSON.parse('');", "JSON.parse('[');", "JSON.parse('{\"a\"');", "JSON.parse('\"\\\\');", "JSON.parse('tru');", "JSON.parse('-');", "JSON.parse('1.');", "JSON.parse('[1,]');", "JSON.parse('\"\\\\u12');",
+    "Object.keys('');", "Object.keys([]);", "Object.assign({});", "Object.entries({});", "Object.fromEntries && Object.fromEntries([]);", "for (var k in '') { }", "for (var v of '') { }", "for (var v of []) { }",
+    "for (var k in []) { }", "for (var k in null) { }", "for (var k in undefined) { }", "for (var k in 5) { }", "new Uint8Array(0).fill(1);", "new Uint8Array(4).fill(1, -9, 9);", "new Uint8Array(4).subarray(3, 1);",
+    "new Uint8Array(4).slice(-1);", "new Uint8Array(4).set([], 4);", "new Uint8Array(0).join();", "new Float64Array(2).indexOf(NaN);", "new Int8Array(3).reverse && new Int8Array(3).reverse();",
+    "new Date(NaN).getTime();", "new Date(8.64e15).getTime();", "new Date(0).toISOString();", "Date.now();", "String.fromCharCode();", "String.fromCharCode(-1, 65536, NaN);",
+    "encodeURIComponent && encodeURIComponent('');", "decodeURIComponent && decodeURIComponent('%');", "escape && escape('');", "new RegExp('').source;", "new RegExp('', 'g').exec('');",
+    "/(?:)/g[Symbol.replace] && 1;", "'x'.replace(/x/g, '$');", "'x'.replace(/x/g, '$0$1$99$<');", "'x'.replace(/(x)/, '$1$11$01$001');", "'abc'.replace(/b/, \"$'$`\");",
+    "new Array(1000).join('');", "new Array(1000).toString().length;", "Array(1000).fill(0).indexOf(1);", "'x'.repeat(1000).lastIndexOf('y');", "'x'.repeat(1000).split('x').length;",
+    "'x'.repeat(999).replaceAll('x', 'yy').length;", "'x'.repeat(999).replace(/x/g, '').length;", "'x'.repeat(999).match(/x/g).length;", "'ab'.repeat(400).split(/(?=a)/).length;",
+]
+
+
 def build(ctx):
     cases = []
     Ds = [200, 1500, 5000] if ctx.quick else [200, 1000, 1500, 5000, 20000]
@@ -141,6 +202,12 @@ def build(ctx):
             core = mk + " while (true) { " + call + " }"
             add("big-receiver-%s/%d" % (rn, L), core, {"top", "function", "cb:forEach"} if not ctx.quick else {"top", "cb:forEach"}, "bare", wraps[0][1], Ds[1], None)
             add("big-receiver-%s/%d" % (rn, L), core, {"getter"}, "try-catch-finally", dict(wraps)["try-catch-finally"], Ds[1], 1000000)
+    # built-in driver loops on edge-case operands: every one of these scripts is finite, so it must come back (finished, or with
+    # the script's own error) well inside the budget - a native loop that stops advancing (an empty match, an empty search string,
+    # a zero step) never returns and is seen by the regex-step monitor, the step budget or the watchdog
+    for fid, src in finite_driver_programs(ctx):
+        cases.append({"id": h(["finite", fid]), "core": "finite-driver", "place": fid.split("|")[0], "wrap": "bare", "D": 60000, "ml": None,
+                      "finite": True, "src": src + "\nlog('END');"})
     # chains of nested eval / new Function levels each burning part of the budget
     for k in (1, 2, 3, 5, 8):
         for D in Ds:
@@ -286,6 +353,7 @@ def main(ctx):
         ep.close()
     over = {}
     cells = {}
+    finite_out = {}
     timed_out = 0
     for c, r in zip(cases, res):
         ctx.count()
@@ -293,8 +361,11 @@ def main(ctx):
         if v == "harness":
             ctx.inconclusive_because("harness error: " + str(det)[:200])
             continue
-        key = (c["core"].split("/")[0], c["place"], c["wrap"])
+        key = (c["core"].split("/")[0], c["place"] if not c.get("finite") else "finite", c["wrap"])
         cells[key] = cells.get(key, 0) + 1
+        if c.get("finite") and r:
+            fo = r.get("out") if r.get("out") != "jserr" else "script-error:" + str(r["err"].get("cls"))
+            finite_out[fo] = finite_out.get(fo, 0) + 1
         if r and r.get("out") == "jserr" and r["err"].get("cls") == "TimeLimitError":
             timed_out += 1
             ctx.nontrivial(c["id"])
@@ -339,6 +410,7 @@ def main(ctx):
     ctx.cov["timed_out_runs"] = timed_out
     ctx.cov["overrun_histogram_steps"] = {str(k): v for k, v in sorted(over.items())}
     ctx.cov["overrun_bound_B"] = B
+    ctx.cov["finite_driver_outcomes"] = finite_out
     ctx.cov["real_clock_cases"] = len(real)
     ctx.cov["real_clock_slow_but_within_2s"] = slow
     ctx.cov["placements"] = sorted({c["place"] for c in cases})
